@@ -322,6 +322,52 @@ def run_unit(ctx, unit):
             if x.get("f") != k or x.get("n") != ctx.scratch + "/" + files[j][0]:
                 st.violation("per-file-context", "&index-in-file / &file-name wrong in file %d" % j, unit, {"row": x})
                 return
+    # a directory argument stands where it was written: "f0 dir f2" (dir holding exactly one file, possibly further down) is
+    # f0, then the file of dir, then f2 - the rows, &index and &file-name of the run with the files spelt out
+    if len(files) >= 2 and prng.random() < 0.6:
+        first = {}
+        for pos, j in enumerate(order):
+            first.setdefault(j, srows[pos])
+        wrapped = set(j for j in range(len(files)) if prng.random() < 0.5)
+        if not wrapped or wrapped == {len(files) - 1}:
+            wrapped.add(prng.randrange(len(files) - 1))
+        dargs, dfl, dnames = [], [], []
+        for j, (nme, p) in enumerate(files):
+            base = nme.split("/")[-1]
+            if j in wrapped:
+                inner = "md%d/%s%s" % (j, prng.choice(("", "", "deep/", "a/b/")), base)
+                dfl.append((inner, p))
+                dargs.append("@D@/md%d" % j)
+                dnames.append(inner)
+            else:
+                dfl.append((nme, p))
+                dargs.append("@D@/" + nme)
+                dnames.append(nme)
+        om = ctx.drv.run(core.Case(args + dargs, b"", files=dfl))
+        if om.result != "ok":
+            if om.result in ("timeout", "abort"):
+                st.inconc("watchdog")
+                return
+            st.violation("dir-among-files-result:" + om.result, "files and one-file directories as arguments: %s %s" % (om.errtext, om.panicinfo), unit, {"obs": om.brief()})
+            return
+        try:
+            got = parse_rows(om.stdout)
+        except jm.JsonError as e:
+            st.violation("unreadable-dir-among-files", str(e), unit, None)
+            return
+        wantd = []
+        for j in range(len(files)):
+            for x in first[j]:
+                y = dict(x)
+                y["i"] = len(wantd)
+                if "n" in y:
+                    y["n"] = ctx.scratch + "/" + dnames[j]
+                wantd.append(y)
+        if got != wantd:
+            st.violation("directory-argument-out-of-place", "arguments %r (directories holding one file each) do not give the rows of the files in argument order" % dargs,
+                         unit, {"got": got[:6], "want": wantd[:6], "cuts": unit["cuts"]})
+            return
+        st.count("directory_among_files_runs")
     # limits and sorters see the same input context: --skip cuts rows, it does not renumber what is left; a sorter hands its
     # rows on with everything they knew (a more significant key or a group key may read &file-name behind it)
     k = len(want) // 2
